@@ -315,6 +315,38 @@ def versioned_model(opset: int, kind: str):
             inits.append(nh.from_array(np.array([1, 2], dtype=np.int64), "sp"))
             n = h.make_node("Split", ["c", "sp"], ["t", "t2"], axis=2)
         oshape = [1, 2, 1]
+    elif kind.startswith("reduce") and kind != "reducesum":
+        opname = {"reducemax": "ReduceMax", "reducemean": "ReduceMean", "reducemin": "ReduceMin", "reduceprod": "ReduceProd",
+                  "reducelogsum": "ReduceLogSum", "reducelogsumexp": "ReduceLogSumExp", "reducesumsquare": "ReduceSumSquare"}[kind]
+        if kind == "reducelogsum":
+            c = np.abs(c) + 1.0
+            inits = [nh.from_array(c, "c")]
+        if opset < 18:
+            n = h.make_node(opname, ["c"], ["t"], axes=[1], keepdims=0)
+        else:
+            inits.append(nh.from_array(np.array([1], dtype=np.int64), "ax"))
+            n = h.make_node(opname, ["c", "ax"], ["t"], keepdims=0)
+        oshape = [1, 3]
+    elif kind == "pad":
+        inits.append(nh.from_array(np.array([0, 1, 0, 0, 0, 1], dtype=np.int64), "pads"))
+        n = h.make_node("Pad", ["c", "pads"], ["t"], mode="constant")
+        oshape = [1, 3, 4]
+    elif kind == "reshape":
+        inits.append(nh.from_array(np.array([0, -1], dtype=np.int64), "shp"))
+        n = h.make_node("Reshape", ["c", "shp"], ["t"])
+        oshape = [1, 6]
+    elif kind == "argmax":
+        n = h.make_node("ArgMax", ["c"], ["ti"], axis=2, keepdims=0)
+        g = h.make_graph([n, h.make_node("Cast", ["ti"], ["t"], to=TP.FLOAT), h.make_node("Add", ["t", "x"], ["y"])], "g", [x],
+                         [vi("y", TP.FLOAT, [1, 2])], initializer=inits)
+        return h.make_model(g, opset_imports=[h.make_opsetid("", opset)], ir_version=7 if opset < 15 else 8 if opset <= 18 else 10)
+    elif kind == "averagepool":
+        n = h.make_node("AveragePool", ["c"], ["t"], kernel_shape=[2], strides=[1])
+        oshape = [1, 2, 2]
+    elif kind == "topk":
+        inits.append(nh.from_array(np.array([2], dtype=np.int64), "k"))
+        n = h.make_node("TopK", ["c", "k"], ["t", "ti"], axis=2)
+        oshape = [1, 2, 2]
     elif kind == "clip":
         inits += [nh.from_array(np.array(-1.0, dtype=np.float32), "lo"), nh.from_array(np.array(1.5, dtype=np.float32), "hi")]
         n = h.make_node("Clip", ["c", "lo", "hi"], ["t"])
@@ -330,13 +362,16 @@ def opset_history_stream(run: core.Run, stats: Counter):
     import onnxscript.optimizer as opt
 
     failures = []
-    kinds = ["squeeze", "unsqueeze", "reducesum", "softmax", "split", "clip"]
+    kinds = ["squeeze", "unsqueeze", "reducesum", "softmax", "split", "clip", "reducemax", "reducemean", "reducemin",
+             "reduceprod", "reducelogsum", "reducelogsumexp", "reducesumsquare", "pad", "reshape", "argmax", "averagepool", "topk"]
+    if run.tier == "quick":
+        kinds = kinds[:6] + run.rng.sample(kinds[6:], 5)
     versions = [11, 13, 18, 21]
     feeds = [{"x": np.array([0.5], dtype=np.float32)}]
     pairs = list(itertools.permutations(versions, 2))
     run.rng.shuffle(pairs)
     for kind in kinds:
-        for (v1, v2) in pairs[: run.size(6, 12)]:
+        for (v1, v2) in pairs[: run.size(4, 12)]:
             seq = [v1, v2] + ([run.rng.choice(versions)] if run.rng.random() < 0.3 else [])
             for v in seq:
                 m = versioned_model(v, kind)
